@@ -138,10 +138,10 @@ class Native:
     def inner(self):
         return self.cell[0].fields[self.idx]
 
-    def add(self, name, size, align, host=(1, 1), uninit=None):
+    def add(self, name, size, align, host=(1, 1), uninit=None, tname='t'):
         """add_datum_override with explicit size/alignment (resolver answers `host`)."""
         self.e.resolver_next = ('host', host[0], host[1])
-        ov = Agg('DatumDefinitionOverride', None, [some_('t'), some_(size), some_(align), none() if uninit is None else some_(uninit)])
+        ov = Agg('DatumDefinitionOverride', None, [some_(tname), some_(size), some_(align), none() if uninit is None else some_(uninit)])
         return self.e.call(NB + 'add_datum_override', [self.ref, name, ov])
 
     def remove(self, n):
@@ -371,9 +371,33 @@ def env_pairs(e):
                 collect(c)
         sub = [(v, _z3.Int(str(v) + suffix) if _z3.is_int(v) else _z3.Bool(str(v) + suffix)) for v in env]
         return [_z3.substitute(c, *sub) if (sub and _z3.is_expr(c)) else c for c in conds], sub
+    # cheap exclusion before the solver: two paths whose conditions contain an input-only literal and its
+    # negation describe disjoint sets of request histories
+    def mentions_env(t, memo={}):
+        k = t.get_id()
+        if k in memo:
+            return memo[k]
+        r = (_z3.is_const(t) and t.decl().kind() == _z3.Z3_OP_UNINTERPRETED and str(t).startswith('env_')) or \
+            any(mentions_env(c) for c in t.children())
+        memo[k] = r
+        return r
+    for r in recs:
+        pos, neg = set(), set()
+        for c in r['conds']:
+            if not _z3.is_expr(c) or mentions_env(c):
+                continue
+            lits = c.children() if _z3.is_and(c) else [c]
+            for l in lits:
+                pos.add(l.get_id())
+                neg.add((l.arg(0) if _z3.is_not(l) else _z3.Not(l)).get_id())
+        r['_pos'], r['_neg'] = pos, neg
     for i in range(len(recs)):
         for j in range(i + 1, len(recs)):
             a, b_ = recs[i], recs[j]
+            if a['order'] == b_['order'] and not a['outs'] and not b_['outs']:
+                continue
+            if a['_pos'] & b_['_neg']:
+                continue
             ca, _ = rename(a['conds'], '__A')
             cb, _ = rename(b_['conds'], '__B')
             diffs = []
